@@ -299,4 +299,13 @@ class WireGen:
         known = set(fields)
         for _ in range(self.rng.randint(1, 3)):
             raws.insert(self.rng.randint(0, len(raws)), self.unknown_record(known))
+        if self.rng.random() < 0.35:
+            # a record that carries the NUMBER of a known field but a wire type that does not fit its declared type is an
+            # unknown field too (the reference keeps it as one): it must not disturb the known fields either
+            from .checks.c17 import _fits, _payload_for
+
+            cands = [(f, wt) for f in mi.fields for wt in (0, 1, 2, 5) if f.label != "map" and not _fits(f, wt)]
+            if cands:
+                f, wt = self.rng.choice(cands)
+                raws.insert(self.rng.randint(0, len(raws)), _payload_for(wt, f.number, self.rng))
         return b"".join(raws), True
